@@ -6,12 +6,15 @@ import numpy as np
 from .. import lib, pfile
 
 ID = 'C03'
-LEAN_MODULE = 'PncProofs.C03'
+LEAN_MODULE = 'PncProofs.C03Order'      # imports PncProofs.C03
 LEAN_FILE = 'PncProofs/C03.lean'
+MORE_LEAN_FILES = ['PncProofs/C03Order.lean']
 NAMESPACE = 'Props.C03'
-LEAN_CONE = ['PncModel.Arr', 'PncModel.NsStep', 'PncModel.Generated.NamespaceOrder', 'PncModel.File', 'PncProofs.ArrLemmas', 'PncProofs.FiberLemmas', 'PncProofs.C03']
+LEAN_CONE = ['PncModel.Arr', 'PncModel.NsStep', 'PncModel.Generated.NamespaceOrder', 'PncModel.File', 'PncProofs.ArrLemmas', 'PncProofs.FiberLemmas', 'PncProofs.C03', 'PncProofs.C03Order']
 LEMMA_FILES = ['PncProofs/FiberLemmas.lean']
-REQUIRED_THEOREMS = ['apply_fiberwise', 'fn_uniform', 'apply_shape', 'reducers_exclude_masked', 'untouched']
+REQUIRED_THEOREMS = ['apply_fiberwise', 'fn_uniform', 'apply_shape', 'reducers_exclude_masked', 'untouched',
+                     'fnOf_perm', 'apply_kwperm', 'foldC_swap', 'sum_apply_eq', 'min_apply_eq', 'max_apply_eq', 'ext_get', 'reduce_get',
+                     'reduce_commute_of', 'reduce_commute']
 RULE = ('[dict form] whole-fibre callables also in the documented dictionary form func1d + keyword arguments; random files (as C02; float64 and int32 variables, masked and unmasked, coordinate variables) x 1-3 '
         'dimension functions in random keyword order: named reducers mean/sum/min/max/var (array methods, '
         'keepdims) and callables np.diff, x[::2], np.cumsum, x[::-1], np.convolve(x,[1,1],"valid") (the last '
@@ -227,6 +230,31 @@ def _direct_case(rng):
                 how=rng.choice(['eval', 'assign']))
 
 
+def _twoorder_case(rng):
+    """two different dimensions reduced with one commuting reducer (sum, min, max; masked cells, whole masked fibres): in one
+    call (keywords in either order) and in two calls in both orders - the four results are one and the same
+    (Lean: apply_kwperm, reduce_commute)"""
+    spec = pfile.gen_file(rng, maxlen=4, minlen=2, masked_prob=0.7)
+    for v in spec['vars']:
+        if v['dtype'] in ('f', 'i'):
+            v['dtype'] = 'd'
+    dl = {d[0]: d[1] for d in spec['dims']}
+    for v in spec['vars']:
+        # often a whole fibre, or everything but one cell, without a valid element
+        if v['masked'] and v['dims'] and rng.random() < 0.5:
+            shape = [dl[n] for n in v['dims']]
+            idx = np.arange(int(np.prod(shape))).reshape(shape)
+            ax = rng.randrange(len(shape))
+            sel = [slice(None) if i == ax else rng.randrange(shape[i]) for i in range(len(shape))]
+            for i in np.atleast_1d(idx[tuple(sel)]).ravel().tolist():
+                v['data'][i] = None
+    names = [d[0] for d in spec['dims']]
+    if len(names) < 2:
+        return _direct_case(rng)
+    d1, d2 = rng.sample(names, 2)
+    return dict(kind='direct', sub='twoorder', fns=[], spec=spec, dim=d1, dim2=d2, fn=rng.choice(['sum', 'min', 'max']), how='eval')
+
+
 def _snap(f):
     out = {}
     for k, v in f.variables.items():
@@ -234,6 +262,16 @@ def _snap(f):
         out[k] = dict(dims=list(v.dimensions), data=np.ma.getdata(a).astype('d').ravel().tolist(),
                       mask=np.ma.getmaskarray(a).ravel().tolist(), shape=list(np.shape(a)), kind=np.asarray(np.ma.getdata(a)).dtype.kind)
     return out
+
+
+def _shadow(f, case):
+    """variable attributes that have the name of the reducer (and of other array methods): `max = 5.` is an attribute like
+    `units`; the reducer named 'max' is still the array method"""
+    if case.get('shadowattr'):
+        for v in f.variables.values():
+            for nm in set([case['fn'], 'max', 'mean']):
+                if nm in NP_REDUCERS:
+                    setattr(v, nm, 5.0)
 
 
 def _impl_direct(case):
@@ -261,9 +299,19 @@ def _impl_direct(case):
                     g = f.applyAlongDimensions(**{case['dim']: dict(func1d=_scaled, fn=case['fn'], scale=case['dictform'])})
                 else:
                     g = f.applyAlongDimensions(**{case['dim']: FIBREFN[case['fn']]})
-            elif case['sub'] == 'prefixdim':
+            elif case['sub'] == 'twoorder':
+                f = pfile.build(case['spec'])
+                before = _snap(f)
+                d1, d2, fn = case['dim'], case['dim2'], case['fn']
+                g = f.applyAlongDimensions(**{d1: fn, d2: fn})
+                others = dict(swapped=_snap(f.applyAlongDimensions(**{d2: fn, d1: fn})),
+                              first_then_second=_snap(f.applyAlongDimensions(**{d1: fn}).applyAlongDimensions(**{d2: fn})),
+                              second_then_first=_snap(f.applyAlongDimensions(**{d2: fn}).applyAlongDimensions(**{d1: fn})))
+                return dict(before=before, after=_snap(g), dimlen={k: len(v) for k, v in g.dimensions.items()}, others=others)
+            elif case['sub'] in ('prefixdim', 'repeatlegacy'):
                 from PseudoNetCDF.core._functions import reduce_dim
                 f = pfile.build(case['spec'])
+                _shadow(f, case)
                 before = _snap(f)
                 g = reduce_dim(f, '%s,%s' % (case['dim'], case['fn']))
             elif case['sub'] == 'disk':
@@ -283,6 +331,7 @@ def _impl_direct(case):
                         f = f.eval('R%d = %s / 7.' % (i, nm), inplace=False, copyall=True)
                     else:
                         f.variables['R%d' % i] = f.variables[nm] * 0.5
+                _shadow(f, case)
                 before = _snap(f)
                 g = f.applyAlongDimensions(**{case['dim']: (case['fn'] if case['fn'] in NP_REDUCERS else PYFN[case['fn']])})
             return dict(before=before, after=_snap(g), dimlen={k: len(v) for k, v in g.dimensions.items()})
@@ -322,6 +371,15 @@ def _oracle_direct(case, res):
         return '%s %s=%s raised %s %s' % (case['sub'], case['dim'], case['fn'], res['err'], res.get('msg'))
     dim, fn = case['dim'], case['fn']
     from . import c10
+    if case['sub'] == 'twoorder':
+        # the order in which the two dimensions are named, in one call or in two, does not matter
+        for how, other in res['others'].items():
+            for k, a in res['after'].items():
+                o = other.get(k)
+                if o is None or (o['dims'], o['shape'], o['mask']) != (a['dims'], a['shape'], a['mask']) or any(
+                        not m and not (abs(x - y) <= 1e-9 * max(1.0, abs(x))) for x, y, m in zip(a['data'], o['data'], a['mask'])):
+                    return 'twoorder %s over %s and %s: variable %s differs between the one call and %s: %s / %s against %s / %s' % (
+                        fn, dim, case['dim2'], k, how, a['data'][:6], a['mask'][:6], o and o['data'][:6], o and o['mask'][:6])
     if case['sub'] == 'ioapi' and dim == 'LAY' and fn == 'thin2dict' and res.get('vg0'):
         want = res['vg0'][:-1][::2] + res['vg0'][-1:]
         if len(res['vg1']) != res['nlays'] + 1 or any(abs(a - b) > 1e-6 for a, b in zip(res['vg1'], want)):
@@ -348,6 +406,11 @@ def _oracle_direct(case, res):
                 want = _along(want, ax, fn, case.get('dictform'))
         else:
             want = arr
+        if case['sub'] == 'twoorder':
+            # both dimensions: every axis that carries one of them, last axis first
+            want = arr
+            for ax in [i for i, dn in enumerate(b['dims']) if dn in (dim, case['dim2'])][::-1]:
+                want = _along(want, ax, fn)
         wm = np.ma.getmaskarray(want).ravel()
         wd = np.ma.getdata(want).astype('d').ravel()
         if list(np.shape(want)) != a['shape']:
@@ -382,6 +445,20 @@ def gen(rng, tier):
                 break
     out += [_legacy_convolve_case(rng) for _ in range(n // 10)]
     out += [_ioapi_case(rng) for _ in range(n // 10)]
+    out += [_twoorder_case(rng) for _ in range(n // 10)]
+    # variables that have an attribute named like the reducer; the string front end on variables that carry the dimension twice
+    got = 0
+    for _ in range(400):
+        c = _direct_case(rng)
+        if c.get('spec') and c['fn'] in NP_REDUCERS and c['sub'] in ('derived', 'prefixdim', 'direct', None) and 'src' not in c:
+            if c['sub'] == 'derived' and any(len(set(v['dims'])) < len(v['dims']) for v in c['spec']['vars']):
+                c['sub'] = 'repeatlegacy'
+            else:
+                c['shadowattr'] = True
+            out.append(c)
+            got += 1
+            if got >= max(6, n // 25):
+                break
     return out
 
 
